@@ -67,6 +67,32 @@ Definition parent_of (t : table) (n : string) : option string :=
 Definition resolve_parent (t : table) (d m : string) : option string :=
   match parent_of t d with Some p => resolve t p m | None => None end.
 
+(* ---- call chains.  Two things determine every resolution: the class of the object the chain started on (for
+   C::f() from outside: the named class) — `static::` and `$this->` resolve from it, at every depth — and the class
+   the running body is written in — `self::` resolves from it, `parent::` from its parent. *)
+Record sctx := { s_run : string; s_lexc : string }.
+Definition spec_hop (t : table) (x : sctx) (h : hop) : option sctx :=
+  option_map (fun d => {| s_run := s_run x; s_lexc := d |})
+    match h with
+    | HThis m => resolve t (s_run x) m
+    | HParent m => resolve_parent t (s_lexc x) m
+    | HSelf s => resolve t (s_lexc x) s
+    | HStatic s => resolve t (s_run x) s
+    end.
+Fixpoint spec_hops (t : table) (x : sctx) (hs : list hop) : option (list string) :=
+  match hs with
+  | [] => Some []
+  | h :: r => match spec_hop t x h with
+              | Some x' => option_map (cons (s_lexc x')) (spec_hops t x' r)
+              | None => None
+              end
+  end.
+Definition spec_run_hops (t : table) (r f : string) (hs : list hop) : option (list string) :=
+  match resolve t r f with
+  | Some d => option_map (cons d) (spec_hops t {| s_run := r; s_lexc := d |} hs)
+  | None => None
+  end.
+
 (* number of parameters of the definition of m in class d *)
 Definition arity_in (t : table) (d m : string) : option nat :=
   match get_class t d with
@@ -128,3 +154,20 @@ Definition wf (t : table) : bool := closed t && acyclic t && kinds_ok t.
 (* s names a static method wherever it is declared *)
 Definition static_name (t : table) (s : string) : bool :=
   forallb (fun x => implb (String.eqb (m_name x) s) (m_static x)) (all_meths t).
+
+(* a chain the theorem speaks about: `$this->` only while an object is at hand (not after a self:: / static:: hop
+   or a static entry), parent:: only in a class that has a parent, self:: / static:: only on static method names *)
+Fixpoint hops_ok (t : table) (inst : bool) (x : sctx) (hs : list hop) : bool :=
+  match hs with
+  | [] => true
+  | h :: r =>
+      match h with
+      | HThis _ => inst
+      | HParent _ => match parent_of t (s_lexc x) with Some _ => true | None => false end
+      | HSelf s | HStatic s => static_name t s
+      end &&
+      match spec_hop t x h with
+      | Some x' => hops_ok t (match h with HThis _ | HParent _ => inst | _ => false end) x' r
+      | None => true
+      end
+  end.
